@@ -26,7 +26,8 @@ Accept(e) ==
          IF e.features = <<>> THEN ~e.ok /\ e.explicit
          ELSE e.ok /\ e.warnings = 0
     [] e.op = "expand" -> e.outcome = "ok" /\ e.out = e.ref
-    [] e.op = "disabled" -> e.outcome = "err" /\ e.unsupported
+    \* (e.listed: the "available traits" the diagnostic offers are exactly the enabled features)
+    [] e.op = "disabled" -> e.outcome = "err" /\ e.unsupported /\ e.listed
     \* an input that only names enabled traits and that the all-features build refuses: refused here as well
     [] e.op = "refuse" -> e.outcome = "err"
     [] OTHER -> FALSE
